@@ -62,8 +62,7 @@ class NfaRoles:
         writers = set()
         for b, bi, kind, payload in fw.get((self.NS, "fail"), []):
             owner = b
-            while owner.is_closure:
-                owner = lib.bodies.get(owner.j["closure_parent"], owner)
+            owner = lib.owner_of(owner)
             if kind == "assign" and owner.j.get("impl_adt") == N:
                 writers.add(owner.path)
         nfns = {b.path: b for b in lib.find_bodies(adt=N)}
@@ -78,8 +77,7 @@ class NfaRoles:
         called_from_outside = set()
         for ob in lib.bodies.values():
             owner = ob
-            while owner.is_closure:
-                owner = lib.bodies.get(owner.j["closure_parent"], owner)
+            owner = lib.owner_of(owner)
             if owner.path in nfns or "::tests::" in owner.path:
                 continue
             for bi, c, t in ob.calls():
@@ -282,8 +280,7 @@ def rule_fail_passes(ctx, R, NR):
             ctx.bad("TERM-FAILW", wb, "fail-mutborrow", wb.loc(bi), "&mut borrow of fail: untracked writes")
         else:
             owner = wb
-            while owner.is_closure:
-                owner = lib.bodies.get(owner.j["closure_parent"], owner)
+            owner = lib.owner_of(owner)
             ctx.check(owner in NR.fail_passes, "TERM-FAILW", wb, "fail-writer", wb.loc(bi),
                       "fail links are written only by the fail passes")
     for b in NR.fail_passes:
@@ -400,6 +397,18 @@ def _fail_pass(ctx, R, NR, b):
                       "EVERY state that has an output must fail to DEAD (no extra condition)")
             ctx.check(ebi in b.reachable_from(bi) and bi not in b.reachable_from(ebi, avoid=[qbi]), "NFA-LM", b, "dead-before-children:" + tag, b.loc(bi, si),
                       "the state's own DEAD link must be set before its children are processed")
+            # ... and before its own fail link is READ for them: a value of states[cur].fail taken before this write is stale
+            # (the children of an output state would be linked from the old link instead of DEAD)
+            stale = []
+            for rbi, rsi, rst in b.stmts():
+                if rst["k"] == "assign" and not rst["lhs"]["proj"] and rst["rv"]["k"] == "use" and rst["rv"]["op"]["k"] in ("copy", "move"):
+                    lf = core.last_field({"proj": rst["rv"]["op"]["place"]["proj"]}) if rst["rv"]["op"]["place"]["proj"] else None
+                    if lf and lf.get("adt") == NS and lf.get("name") == "fail" and m(F(S, "fail", NS), pnorm(root.T.rvalue(rst["rv"]))):
+                        if (rbi == bi and rsi < si) or (rbi != bi and bi in b.reachable_from(rbi, avoid=[qbi])):
+                            stale.append((rbi, rsi))
+            ctx.check(not stale, "NFA-LM", b, "fail-read-after-dead-write:" + tag, b.loc(*stale[0]) if stale else b.loc(bi, si),
+                      "the dequeued state's fail link must be read (to start its children's walks) only AFTER it has been set to DEAD for an "
+                      "output state; a read before that write is stale")
         else:
             ctx.bad("NFA-FAIL", b, "fail-target:" + tag, b.loc(bi, si),
                     "unexpected target of a fail-link write: %s" % show(tgt))
